@@ -98,8 +98,8 @@ func genValidSigner(t *rapid.T, kind string) Signer {
 // (make(enc.Name, l/2+1), make([]byte, l)): with a flipped 5- or 9-byte length that is a
 // multi-gigabyte request, i.e. a fatal out-of-memory error that no recover() contains. That
 // is a C04 finding (owned by the robustness checks). Such flips are not executed (and are
-// counted) so that the C12 search continues behind them; set VERIF_C12_NOSCREEN=1 to run
-// them once the decoders bound these allocations. lengthBeyond reports, more broadly, any
+// counted) only when VERIF_C12_SCREEN=1 is set (trees whose decoders do not yet bound these
+// allocations), so that the C12 search can continue behind them. lengthBeyond reports, more broadly, any
 // element whose length exceeds the buffer (used to keep the copying WireReader off them).
 func fatalAllocation(buf []byte) (fatal, lengthBeyond bool) {
 	steps := 0
@@ -144,7 +144,9 @@ func fatalAllocation(buf []byte) (fatal, lengthBeyond bool) {
 	return
 }
 
-var noScreen = os.Getenv("VERIF_C12_NOSCREEN") == "1"
+// The decoders of /repo main bound these allocations since 634d608; the screen is therefore
+// off unless VERIF_C12_SCREEN=1 asks for it (for trees that predate that repair).
+var noScreen = os.Getenv("VERIF_C12_SCREEN") != "1"
 
 type span struct{ lo, hi int } // [lo, hi)
 
